@@ -56,6 +56,8 @@ def cases(draw, profile=None):
     c["net_offset"] = draw(st.sampled_from([None, None, None, None, None, 1.3, 2.5, 0.6]))
     # the model object was fitted to another site first (an object re-used in a loop): everything recorded afterwards is about this baseline
     c["prefit"] = draw(st.sampled_from([None, None, None, "cold-large", "hot-small"]))
+    # a building whose load sets in gradually (a knee several degrees wide instead of a kink): the smoothed shapes' natural home
+    c["soft_knee"] = draw(st.sampled_from([None, None, None, 4.0, 8.0, 12.0]))
     return c
 
 
@@ -66,6 +68,13 @@ def build(c):
     df = synth.daily_frame(n=c["n"], tz=c["tz"], start_day=c["start_day"], noise_seed=c["seed"], weather=w,
                            usage={"base": c["base"], "hs": c["hs"], "hb": c["hb"], "cs": c["cs"], "cb": c["hb"] + c["gap"]},
                            noise=c["noise"], additive=0.0, weekend_shift=c["weekend_shift"], season_shift=c["season_shift"], outliers=c["outliers"])
+    if c.get("soft_knee") and not c.get("extreme_days"):
+        w = float(c["soft_knee"])
+        T = df["temperature"].values
+        rng = np.random.default_rng(c["seed"] + 9)
+        soft = lambda z: w * np.logaddexp(0.0, z / w)  # softplus: a kink rounded over about w degrees
+        y = c["base"] + c["hs"] * soft(c["hb"] - T) + c["cs"] * soft(T - (c["hb"] + c["gap"]))
+        df["observed"] = y * (1 + c["noise"] * np.clip(rng.normal(0, 0.5, len(T)), -1, 1))
     if c.get("extreme_days"):
         k, side = c["extreme_days"]
         T = df["temperature"].values
@@ -255,7 +264,7 @@ def judge(c, rec):
             rec.violation(K + "/kept-coefficients-differ-from-eval", c, "%s: JSON coefficients give %r at T=%r, the component's eval() %r (model_type %s)" % (
                 name, float(ref[i]), float(comp.T[i]), float(ev[i]), sm["coefficients"]["model_type"]))
     split = "__" in (m.best_combination or "")
-    cls = cls + ["step=%d" % bool(c.get("step")), "extreme-days=%d" % bool(c.get("extreme_days")), "reused-object=%d" % bool(c.get("prefit"))]
+    cls = cls + ["step=%d" % bool(c.get("step")), "extreme-days=%d" % bool(c.get("extreme_days")), "reused-object=%d" % bool(c.get("prefit")), "soft-knee=%d" % bool(c.get("soft_knee"))]
     rec.case(c, bool(sloped or split or onbound), cls + ["split=%d" % split, "sloped=%d" % sloped])
 
 
